@@ -59,7 +59,10 @@ class _Obj:
     pass
 
 
-JUNK = {"str": "invalid", "none": None, "int": 42, "object": _Obj(), "dictmissing": {"node_id": 1}}
+from aiomysensors.model.message import Message as _Message  # noqa: E402
+
+JUNK = {"str": "invalid", "none": None, "int": 42, "object": _Obj(), "dictmissing": {"node_id": 1},
+        "class": _Message}      # the class instead of an instance (forgotten parentheses)
 
 # ---------------------------------------------------------------------------------------
 # TLC on a focus configuration
@@ -360,9 +363,20 @@ def version_grid(tier: str) -> list[tuple[dict, list]]:
                     k += 1
                     init = {"metric": True, "ver": "none" if k % 3 else "2.1", "proto": "1.4" if k % 3 else "2.1",
                             "nodes": [[1, {"type": 17, "ver": "2.0", "bat": 0, "sn": "", "sv": "", "hb": 0, "sl": False, "rb": False, "ch": []}]]}
+                    if k % 4 == 1:
+                        # a persistence file that also holds the gateway's own node with the version it had last time:
+                        # entering the context loads it; the rules in force still follow the REPORTED version only
+                        init["persist"] = True
+                        init["nodes"].append([0, {"type": 18, "ver": ["2.2.0", "2.1.1", "1.5.0", "2.0.0"][(k // 4) % 4], "bat": 0, "sn": "", "sv": "",
+                                                  "hb": 0, "sl": False, "rb": False, "ch": []}])
+                        init["nodes"].sort()
                     report = (dict(k="recv", n=0, c=255, cmd=3, ack=0, t=2, p=ver) if k % 2
                               else dict(k="recv", n=0, c=255, cmd=0, ack=0, t=18, p=ver))
-                    out.append((init, [report] + probes[(k % 4):] + [dict(k="cycle")] + probes[:2]))
+                    if init.get("persist"):
+                        # entered before anything was reported: probes, then the report, then probes again
+                        out.append((init, [dict(k="cycle")] + probes[(k % 5):(k % 5) + 6] + [report] + probes[(k % 4):] + [dict(k="cycle")] + probes[:2]))
+                    else:
+                        out.append((init, [report] + probes[(k % 4):] + [dict(k="cycle")] + probes[:2]))
     return out
 
 
